@@ -239,7 +239,7 @@ def cone_lemma_z3(ctx):
         norm2 = sum(x * x for x in p)
         hyp = z3.And(L2 >= 0, norm2 > L2, s >= 0, s * s * norm2 == L2)      # s = sqrt(L2/norm2)
         goal = z3.And(sum((x * s) * (x * s) for x in p) == L2, s < 1)
-        sv = z3.Solver(); sv.set("timeout", 60000); sv.add(hyp, z3.Not(goal))
+        sv = z3.Solver(); sv.set("timeout", int(60000 * __import__("symlib").timeout_scale())); sv.add(hyp, z3.Not(goal))
         r = sv.check()
         st = {"unsat": "discharged", "sat": "failed"}.get(str(r), "undecided")
         ctx.add(Obligation("pgs.cone_lemma:scaled_vector_on_cone.n%d" % n, "pgs.cone_lemma", "z3", st, _t.time() - t0,
